@@ -257,7 +257,7 @@ class Check:
         for kid, what in sorted(self.known_seen.items()):
             lines.append(f"KNOWN-FINDING: property={self.pid} {what}")
         rc = 0
-        for i, v in enumerate(self.violations):
+        for i, v in enumerate(self.violations[:5]):
             path = os.path.join(self.work, f"replay_{i}.json")
             json.dump({"property": self.pid, "key": v["key"], "what": v["what"], "replay": v["replay"],
                        "failed_obligations": [n for n, _ in failed]}, open(path, "w"), indent=1, default=str)
